@@ -4,7 +4,7 @@
 # the copy (VERIF_REPO) and reports whether each check raised a VIOLATION. The copy and its build output are removed.
 set -u
 PATCH="$(readlink -f "$1")"; shift
-NAME=$(basename "$PATCH" .patch); NAME=$(basename "$NAME" .diff)
+NAME=$(basename "$PATCH" .patch); NAME=$(basename "$NAME" .diff); [ "$NAME" = "patch" ] && NAME=$(basename "$(dirname "$PATCH")")
 SCRATCH="/var/tmp/mutant-$NAME-$$"
 rm -rf "$SCRATCH"; mkdir -p "$SCRATCH"
 git -C /repo archive HEAD | tar -x -C "$SCRATCH"
